@@ -13,6 +13,7 @@ Keyword policy (the property demands escaping only where the back end promises i
 """
 import ast
 import re
+import unicodedata
 
 SWIFT_RESERVED = {
     "associatedtype", "class", "deinit", "enum", "extension", "fileprivate", "func", "import", "init", "inout",
@@ -62,12 +63,83 @@ LEX = {
 }
 
 
-def is_id_start(c):
-    return c == "_" or c.isalpha()
+# Identifier alphabets, per language.  ASCII: letters, `_`, digits inside (as before; `$` stays punctuation: no back end
+# writes it into a name).  Beyond ASCII each language has its own rule; where a language's specification and its reference
+# implementation differ, the recogniser takes the union (it must never demand more than the language does):
+#   Go          letter = Unicode categories Lu Ll Lt Lm Lo (and `_`), unicode_digit = Nd; nothing else - no marks (Mn Mc), no
+#               letter numbers (Nl), no connectors but `_`                                   (Go spec, "Identifiers", "Letters and digits")
+#   Kotlin      Letter = Lu Ll Lt Lm Lo Nl, UnicodeDigit = Nd                             (Kotlin spec, grammar `Identifier`; the
+#               JFlex lexer has Character.isLetter / isDigit: a subset of it)
+#   Scala       letter = Lu Ll Lt Lm Lo Nl (`$`, `_`), digit = 0-9 in the specification; the scanner continues an identifier
+#               with Character.isUnicodeIdentifierPart: also Nd Mn Mc Pc Other_ID_Start Other_ID_Continue   (union of the two)
+#   TypeScript  IdentifierStart = ID_Start, IdentifierPart = ID_Continue, ZWNJ, ZWJ        (ECMAScript "Names and Keywords";
+#               ID_Start = L* Nl Other_ID_Start, ID_Continue = that + Mn Mc Nd Pc Other_ID_Continue, minus Pattern_Syntax)
+#   Swift       identifier-head / identifier-character code point ranges                   (The Swift Programming Language,
+#               "Lexical Structure")
+#   Python      CPython's own tokenizer decides (python_check)
+_LETTER = ("Lu", "Ll", "Lt", "Lm", "Lo")
+_OTHER_ID_START = set("\u1885\u1886\u2118\u212e\u309b\u309c")
+_OTHER_ID_CONTINUE = set("\u00b7\u0387\u19da\u200c\u200d\u30fb\uff65") | {chr(x) for x in range(0x1369, 0x1372)}
+_SWIFT_HEAD = [(0xA8, 0xA8), (0xAA, 0xAA), (0xAD, 0xAD), (0xAF, 0xAF), (0xB2, 0xB5), (0xB7, 0xBA), (0xBC, 0xBE), (0xC0, 0xD6),
+               (0xD8, 0xF6), (0xF8, 0xFF), (0x100, 0x2FF), (0x370, 0x167F), (0x1681, 0x180D), (0x180F, 0x1DBF), (0x1E00, 0x1FFF),
+               (0x200B, 0x200D), (0x202A, 0x202E), (0x203F, 0x2040), (0x2054, 0x2054), (0x2060, 0x206F), (0x2070, 0x20CF),
+               (0x2100, 0x218F), (0x2460, 0x24FF), (0x2776, 0x2793), (0x2C00, 0x2DFF), (0x2E80, 0x2FFF), (0x3004, 0x3007),
+               (0x3021, 0x302F), (0x3031, 0x303F), (0x3040, 0xD7FF), (0xF900, 0xFD3D), (0xFD40, 0xFDCF), (0xFDF0, 0xFE1F),
+               (0xFE30, 0xFE44), (0xFE47, 0xFFFD)] + [(p * 0x10000, p * 0x10000 + 0xFFFD) for p in range(1, 15)]
+_SWIFT_MORE = [(0x300, 0x36F), (0x1DC0, 0x1DFF), (0x20D0, 0x20FF), (0xFE20, 0xFE2F)]
 
 
-def is_id_part(c):
-    return c == "_" or c.isalnum()
+def _in(ranges, c):
+    o = ord(c)
+    return any(a <= o <= b for a, b in ranges)
+
+
+def id_start(lang, c):
+    """may `c` start an identifier of `lang`?"""
+    if c.isascii():
+        return c == "_" or c.isalpha()
+    cat = unicodedata.category(c)
+    if lang == "go":
+        return cat in _LETTER
+    if lang in ("kotlin", "scala"):
+        return cat in _LETTER or cat == "Nl"
+    if lang == "typescript":
+        return (cat in _LETTER or cat == "Nl" or c in _OTHER_ID_START) and c != "\u2e2f"
+    if lang == "swift":
+        return _in(_SWIFT_HEAD, c)
+    return c.isalpha()
+
+
+def id_part(lang, c):
+    """may `c` continue an identifier of `lang`?"""
+    if c.isascii():
+        return c == "_" or c.isalnum()
+    if id_start(lang, c):
+        return True
+    cat = unicodedata.category(c)
+    if lang in ("go", "kotlin"):
+        return cat == "Nd"
+    if lang == "scala":
+        return cat in ("Nd", "Mn", "Mc", "Pc") or c in _OTHER_ID_CONTINUE or c in _OTHER_ID_START
+    if lang == "typescript":
+        return cat in ("Nd", "Mn", "Mc", "Pc") or c in _OTHER_ID_CONTINUE
+    if lang == "swift":
+        return _in(_SWIFT_MORE, c)
+    return c.isalnum()
+
+
+def is_identifier(lang, s):
+    """is `s` (outside back-ticks) spelled like an identifier of `lang`?  (keywords are not looked at)"""
+    if lang == "python":
+        return s.isidentifier()
+    return s != "" and id_start(lang, s[0]) and all(id_part(lang, c) for c in s[1:])
+
+
+def describe_char(c):
+    return "U+%04X %s (category %s)" % (ord(c), unicodedata.name(c, "unnamed"), unicodedata.category(c))
+
+
+STRAY_IS_LEXICAL_ERROR = ("go", "kotlin", "typescript")
 
 
 def lex(lang, text):
@@ -141,18 +213,27 @@ def lex(lang, text):
                 raise Reject("unterminated or empty back-tick identifier", ("bid", text[i:j], line))
             toks.append(("bid", text[i + 1:j], line))
             i = j + 1
-        elif is_id_start(c):
+        elif id_start(lang, c):
             j = i + 1
-            while j < n and is_id_part(text[j]):
+            while j < n and id_part(lang, text[j]):
                 j += 1
             toks.append(("id", text[i:j], line))
             i = j
-        elif c.isdigit():
+        elif c in "0123456789":
             j = i + 1
-            while j < n and (text[j].isalnum() or text[j] in "._"):
+            while j < n and (text[j] in "._" or (text[j].isascii() and text[j].isalnum())):
                 j += 1
             toks.append(("num", text[i:j], line))
             i = j
+        elif not c.isascii() and lang == "typescript" and (unicodedata.category(c) == "Zs" or c == "\ufeff"):
+            i += 1                       # ECMAScript white space
+        elif not c.isascii() and lang in STRAY_IS_LEXICAL_ERROR:
+            # Go, Kotlin and ECMAScript have no token that such a character could be part of (outside comments and literals):
+            # "invalid character U+0301 in identifier" / "illegal character".  Swift and Scala have operator identifiers over
+            # symbol characters, so there the character stays a token of its own and the parser decides.
+            prev = toks[-1] if toks and toks[-1][0] == "id" and toks[-1][2] == line else None
+            raise Reject("%s %s" % (describe_char(c), "cannot continue the %s identifier `%s`" % (lang, prev[1]) if prev
+                                    else "can neither start a %s identifier nor is it punctuation" % lang), ("p", c, line))
         else:
             toks.append(("p", c, line))
             i += 1
